@@ -38,9 +38,16 @@ def packet_obs():
         encodes=["parse_ait", "unham_top_page_link"], bounds="none within one packet; packet number enumerated by the runner",
         grid=[dict(PKTSEL=k) for k in range(0, 32)], quick_grid=[dict(PKTSEL=k) for k in (0, 1, 23, 24)], timeout=600, mem_gb=4, **PK)
     o["lop_parity"] = Ob("lop_parity_gate", func="h_lop_parity", unwind=50, vin_size=2200, reach=["end", "badrow", "goodrow"],
-        desc="lop_parity_check with 26 arbitrary received rows over an arbitrary cached page (no X/26): at an arbitrary row 1..25, a row with any even-parity byte (or not received) "
+        desc="lop_parity_check with 26 arbitrary received rows over an arbitrary cached page (no X/26): at row ROWSEL, a row with any even-parity byte (or not received) "
              "never replaces the cached row nor marks it received; a good row is copied byte-exactly; row 0 untouched",
-        encodes=["lop_parity_check", "vbi_unpar8"], bounds="x26_designations == 0 (the X/26 parity work-around is outside this obligation)", timeout=900, mem_gb=8, **PK)
+        encodes=["lop_parity_check", "vbi_unpar8"], bounds="x26_designations == 0 (the X/26 parity work-around is outside this obligation); observed row enumerated by the runner (1..25 thorough; 1, 12, 24, 25 quick)",
+        grid=[dict(ROWSEL=r) for r in range(1, 26)], quick_grid=[dict(ROWSEL=r) for r in (1, 12, 24, 25)], timeout=900, mem_gb=8, **PK)
+    o["lop_parity_x26"] = Ob("lop_parity_gate_x26", func="h_lop_parity_x26", unwind=50, vin_size=256, reach=["end", "blocked", "taken"],
+        desc="lop_parity_check with X/26 data (3 arbitrary triplets: row addressing, set active position, character triplets) on one received row: a byte with even parity lets the "
+             "row through only at a position which an X/26 character triplet overrides (active row per EN 300 706 12.3: address-40, 0 = 24; mode 7 = row 0); anywhere else the "
+             "cached row and the received-rows mask stay as they were; a row that is taken is copied byte-exactly outside overridden positions",
+        encodes=["lop_parity_check", "vbi_par8", "vbi_unpar8"], bounds="3 enhancement triplets, one received row (enumerated: 1..25 thorough; 5, 24 quick)",
+        grid=[dict(ROWSEL=r) for r in range(1, 26)], quick_grid=[dict(ROWSEL=5), dict(ROWSEL=24)], timeout=600, mem_gb=4, **PK)
     MG = [dict(MAGN=m) for m in range(8)]
     o["x2829"] = Ob("parse_28_29", func="h_2829", unwind=50, vin_size=1024, reach=["end", "clean"],
         desc="parse_28_29 on an arbitrary row for X/28 and M/29, arbitrary page function, arbitrary page/magazine extension: no access outside (bit stream reader, colour map, "
@@ -76,12 +83,18 @@ def packet_obs():
         encodes=["vbi_decode_teletext", "parse_mot", "parse_pop", "parse_btt", "parse_ait", "parse_mpt", "parse_mpt_ex", "parse_27", "parse_28_29", "parse_8_30"],
         bounds="one packet; magazine 1 and 8, every packet number (thorough) / one per class (quick); page data concrete zero (leaf parsers have their own obligations)",
         grid=RG, quick_grid=[dict(MAGN=1, PKTN=p) for p in (1, 25, 26, 27, 28, 29, 30, 31)], timeout=900, mem_gb=6, **PK)
-    o["header"] = Ob("ttx_header", func="h_ttx_header", unwind=50, vin_size=128, reach=["end", "pageno_err", "sub_err", "clean"],
-        desc="vbi_decode_teletext on a page header X/0 with arbitrary 40 bytes (no page in progress, cache miss): an uncorrectable page number stores nothing; an uncorrectable "
-             "subcode or control byte marks the page DISCARD (never assembled, hence never stored under a wrong subcode); otherwise the opened page carries exactly the "
-             "transmitted page number, subcode S1..S4, national option bits and control bits (reference: EN 300 706 9.3.1 from the nibbles of an independent Hamming decoder)",
-        encodes=["vbi_decode_teletext (case 0)", "vbi_unham16p", "vbi_convert_page"], bounds="one header; magazine enumerated by the runner; vt.current == NULL",
-        grid=[dict(MAGN=m) for m in range(8)], quick_grid=[dict(MAGN=1), dict(MAGN=0)], timeout=900, mem_gb=8, **PK)
+    HG = [dict(MAGN=m, PAGEN=pg) for m in (1, 0, 4) for pg in ("0x23", "0x99", "0xAB", "0xFF", "0xFD", "0xFE", "0xF0", "0xE7")]
+    o["header"] = Ob("ttx_header", func="h_ttx_header", unwind=50, vin_size=128, reach=["end", "sub_err", "clean"],
+        desc="vbi_decode_teletext on a page header X/0 (no page in progress, cache miss) with the address and page number bytes concrete (runner grid) and the sub-code, "
+             "control bytes and the remaining 32 bytes arbitrary: an uncorrectable sub-code or control byte marks the page DISCARD (never assembled, hence never stored "
+             "under a sub-code that was not transmitted); otherwise the opened page carries exactly the transmitted page number, sub-code S1..S4, national option bits and "
+             "control bits (reference: EN 300 706 9.3.1 from the nibbles of an independent Hamming decoder)",
+        encodes=["vbi_decode_teletext (case 0)", "vbi_unham16p", "vbi_convert_page"], bounds="one header; magazine and page number enumerated by the runner; vt.current == NULL",
+        grid=HG, quick_grid=[dict(MAGN=1, PAGEN="0x23"), dict(MAGN=0, PAGEN="0x99"), dict(MAGN=1, PAGEN="0xFF")], timeout=1200, mem_gb=6, **PK)
+    o["header_badpage"] = Ob("ttx_header_pageno_error", func="h_ttx_header", unwind=50, vin_size=128, reach=["end", "pageno_err"],
+        desc="page header whose page number byte is uncorrectable (two bit errors): nothing is stored, no event, the pages in progress are abandoned",
+        encodes=["vbi_decode_teletext (case 0)", "vbi_teletext_desync"], bounds="error in the units or the tens byte (grid); rest of the header arbitrary",
+        grid=[dict(MAGN=1, PAGEN="0x23", PAGEBAD=b) for b in (0, 1)], timeout=600, mem_gb=4, **PK)
     o["addr_error"] = Ob("ttx_addr_error", func="h_ttx_addr_error", unwind=50, vin_size=64,
         desc="a packet whose address bytes are uncorrectable is rejected and changes nothing (page in progress, X/26 bookkeeping, no cache store, no event)",
         encodes=["vbi_decode_teletext"], bounds="none", timeout=300, mem_gb=4, **PK)
